@@ -1033,6 +1033,26 @@ func (it *Iter) next(e *Exec, fr *frame) Tuple {
 
 // ---- builtins ----
 
+func (e *Exec) appendValues(caller *frame, dst Slice, add []Value) Slice {
+	if len(add) == 0 {
+		return dst
+	}
+	if dst.ro && len(dst.v)+len(add) <= cap(dst.v) {
+		// would write into the shared template's spare capacity: force a copy
+		nv := make([]Value, len(dst.v), len(dst.v)+len(add))
+		copy(nv, dst.v)
+		dst = Slice{v: nv}
+	}
+	if len(dst.v)+len(add) > cap(dst.v) {
+		e.noteAlloc(caller, int64(len(dst.v)+len(add)))
+	}
+	nv := dst.v
+	for _, a := range add {
+		nv = append(nv, copyVal(a))
+	}
+	return Slice{v: nv}
+}
+
 func (e *Exec) callBuiltin(caller *frame, fn *ssa.Builtin, args []Value) Value {
 	c := e.ctx
 	switch fn.Name() {
@@ -1052,23 +1072,7 @@ func (e *Exec) callBuiltin(caller *frame, fn *ssa.Builtin, args []Value) Value {
 		default:
 			e.unsupported(caller, "append of %s", describe(args[1]))
 		}
-		if len(add) == 0 {
-			return dst
-		}
-		if dst.ro && len(dst.v)+len(add) <= cap(dst.v) {
-			// would write into the shared template's spare capacity: force a copy
-			nv := make([]Value, len(dst.v), len(dst.v)+len(add))
-			copy(nv, dst.v)
-			dst = Slice{v: nv}
-		}
-		if len(dst.v)+len(add) > cap(dst.v) {
-			e.noteAlloc(caller, int64(len(dst.v)+len(add)))
-		}
-		nv := dst.v
-		for _, a := range add {
-			nv = append(nv, copyVal(a))
-		}
-		return Slice{v: nv, ro: false}
+		return e.appendValues(caller, dst, add)
 
 	case "copy":
 		dst := args[0].(Slice)
